@@ -49,7 +49,8 @@ TSeqRefused == /\ IsEv("rename-refused") /\ Adv /\ scn.seq
                   /\ wpc[w] = "apply" /\ queue[w] # <<>> /\ Head(queue[w]).idx = Ev.idx + 1
                   /\ Consider(w) /\ stack'[w] = stack[w]
 TApplyDone == IsEv("apply-done") /\ Adv /\ scn.seq /\ BarrierApply
-TPhase == IsEv("phase") /\ Adv /\ ~scn.seq /\ BarrierApply
+TPhase == IsEv("phase") /\ Ev.name = "save" /\ Adv /\ ~scn.seq /\ BarrierApply
+TPhaseApply == IsEv("phase") /\ Ev.name = "apply" /\ Adv /\ Stutter
 TRejCreate == /\ IsEv("rej-create") /\ Adv
               /\ mainpc = "rejects" /\ \E r \in rejq : r.path = Ev.target /\ (\A q \in rejq : q.path = r.path => r.n <= q.n)
                                                         /\ RejStep /\ rejq' = rejq \ {r}
@@ -108,7 +109,7 @@ Silent ==
      \/ (mainpc = "rejects" /\ rejq = {} /\ RejStep)
      \/ (mainpc = "record" /\ scn.cfg.dry /\ Finish)
 TInit == \E k \in 1..Len(Rec) : t = k /\ l = 1 /\ InitWith(Rec[k].scn)
-TNext == \/ TConsider \/ TApplied \/ TRefused \/ TSeqApplied \/ TSeqRefused \/ TApplyDone \/ TPhase \/ TRejCreate \/ TUnlink \/ TMkdir \/ TCreate \/ TBackup
+TNext == \/ TConsider \/ TApplied \/ TRefused \/ TSeqApplied \/ TSeqRefused \/ TApplyDone \/ TPhase \/ TPhaseApply \/ TRejCreate \/ TUnlink \/ TMkdir \/ TCreate \/ TBackup
          \/ TReaddir \/ TFinish \/ TAppend \/ TNoise \/ Silent
 
 \* acceptance: the whole trace is consumed and the model run has terminated with the run's exit status
